@@ -402,10 +402,63 @@ class _Gen13(object):
             f['torn'] = rng.randint(0, 40)
         return f
 
-    def ops(self, nops, faulty, mem):
+    def place(self):
+        """A line number in front of, between or behind the existing lines."""
+        rng = self.rng
+        have = sorted(self.have)
+        if not have:
+            return self.number()
+        r = rng.random()
+        if r < 0.4 and have[0] > 0:
+            return max(0, have[0] - rng.choice([1, 2, 5, 10]))
+        if r < 0.7 and len(have) > 1:
+            i = rng.randrange(len(have) - 1)
+            return have[i] + (have[i + 1] - have[i]) // 2
+        if r < 0.8:
+            return rng.choice(have)
+        return min(MAXLINE, have[-1] + rng.choice([1, 10, 100]))
+
+    def long_rec(self, space):
+        """A REM or DATA line whose length matters against `space` bytes of program memory."""
+        rng = self.rng
+        n = rng.randint(8, max(10, min(240, space)))
+        if rng.random() < 0.6:
+            return {'parts': ['REM ' + _word(rng, n, n)], 'k': 'pass', 'uid': None}
+        items = [_word(rng, 3, 9)]
+        while len(','.join(items)) < n - 10:
+            items.append(_word(rng, 3, 9))
+        return {'parts': ['DATA ' + ','.join(items)], 'k': 'pass', 'uid': None}
+
+    def ops(self, nops, faulty, mem, clr=False):
         rng = self.rng
         out = []
+        tight = mem < 65534 or clr
+        space = max(16, mem - 5232) if mem < 65534 else 400
         for _ in range(nops):
+            if tight:
+                q = rng.random()
+                if clr and q < 0.05:
+                    # CLEAR ,n[,m]: the memory BASIC may use and the stack size; program space is what is left
+                    space = int(2 ** rng.uniform(5, 12))
+                    stack = rng.choice([None, None, None, 64, 100, 256, 512, 1024])
+                    out.append({'op': 'clear', 'mem': 4718 + (512 if stack is None else stack) + space, 'stack': stack})
+                    continue
+                if q < 0.10 and self.have:
+                    # save as text, drop the lines at the front, grow the rest, merge the front lines back in
+                    name = rng.choice(DISK_NAMES)
+                    have = sorted(self.have)
+                    cut = have[rng.randrange(len(have))]
+                    out.append({'op': 'save', 'name': name, 'fmt': 'A'})
+                    self.savedfmt[name] = ('A', len(self.have))
+                    if name not in self.saved:
+                        self.saved.append(name)
+                    out.append({'op': 'delete', 'a': None, 'b': cut, 'single': False, 'chk': False})
+                    for _ in range(rng.randint(0, 3)):
+                        n = min(MAXLINE, have[-1] + rng.randint(1, 50))
+                        out.append(dict(self.long_rec(space), op='line', n=n, chk=False))
+                        self.have.add(n)
+                    out.append({'op': 'merge', 'name': name, 'chk': rng.random() < 0.5})
+                    continue
             r = rng.random()
             chk = rng.random() < 0.25
             if r < 0.44 or not self.have and r < 0.8:
@@ -413,6 +466,9 @@ class _Gen13(object):
                 if rng.random() < 0.01:
                     n = rng.randint(MAXLINE + 1, 65535)
                 rec = self.line_rec()
+                if tight and rng.random() < 0.4:
+                    n = self.place()
+                    rec = self.long_rec(space)
                 out.append(dict(rec, op='line', n=n, chk=chk))
                 if n <= MAXLINE:
                     self.have.add(n)
@@ -500,6 +556,8 @@ def gen13(rng, tier):
         # program space = max_memory - 514 (stack) - 4718 (code start with the default file buffers)
         mem = 5232 + int(round(2 ** rng.uniform(5.5, 12.5)))
     nops = rng.randint(8, 60) if quick else rng.randint(30, 400)
+    # memory-limited histories: a small session (max_memory) and / or CLEAR ,n[,m] during the history
+    clr = faulty and rng.random() < 0.3
     g = _Gen13(rng, tier)
     pre = []
     if rng.random() < 0.05:
@@ -513,7 +571,7 @@ def gen13(rng, tier):
         g.savedfmt['P0'] = ('B', 1)
         if rng.random() < 0.7:
             pre.append({'op': 'merge', 'name': 'P0', 'chk': False})
-    ops = pre + g.ops(nops, faulty, mem)
+    ops = pre + g.ops(nops, faulty, mem, clr)
     cfg = {'max_memory': mem, 'faults': faulty, 'syntax': rng.choice(['advanced', 'advanced', 'pcjr', 'tandy'])}
     return {'machine': NAME, 'prop': 'C13', 'cfg': cfg, 'ops': ops}
 
@@ -645,6 +703,43 @@ def run13(case):
                 if got != exp:
                     run.violate('C13', 'list-mismatch:' + tag, _diff(got, exp))
                     return False
+                return True
+
+            fits_reported = [False]
+
+            def check_fits(tag, alloc=False):
+                """The program that was accepted fits in memory: FRE is not negative, FRE("") works, and a small
+                allocation succeeds when FRE says there is room for it."""
+                if fits_reported[0]:
+                    # the same overshoot would be reported after every later op
+                    return True
+                run.probe('fits_checks')
+                f = d.eval(b'FRE(0)')
+                if f is None or f < 0:
+                    fits_reported[0] = True
+                    # an overshoot of one or two bytes comes from the three-byte end marker of the program being
+                    # counted as one byte; anything more is a line that was accepted without room for it
+                    sig = 'fre-minus-1-or-2' if f is not None and f >= -2 else 'fre-negative'
+                    run.violate('C13', 'program-outgrew-memory:%s:%s' % (sig, tag),
+                                'FRE(0) gives %r with the program %r...' % (f, M.listing()[:8]))
+                    return False
+                if f < 16:
+                    # with next to nothing left an Out of memory for the operand of FRE("") is in order
+                    return True
+                g = d.eval(b'FRE("")')
+                if g is None or g < 0:
+                    fits_reported[0] = True
+                    run.violate('C13', 'program-outgrew-memory:fre-string-fails:' + tag,
+                                'FRE(0) gives %r but FRE("") gives %r' % (f, g))
+                    return False
+                if alloc and min(f, g) >= 64:
+                    r = E.x(b'A=1')
+                    if r.err is not None:
+                        fits_reported[0] = True
+                        run.violate('C13', 'program-outgrew-memory:allocation-fails-though-fre-reports-room:' + tag,
+                                    'FRE(0) gives %r, FRE("") gives %r, and A=1 gives %r' % (f, g, r.errs))
+                        return False
+                    run.probe('fits_alloc_checks')
                 return True
 
             def check_chain(tag):
@@ -933,6 +1028,8 @@ def run13(case):
                     oc = store_outcome(r, n, rec, 'replace' if n in M.lines else 'insert')
                     note('line', oc)
                     check_list('after-line-entry' + (':oom' if oc == 'oom' else ''))
+                    if pressure:
+                        check_fits('after-line-entry', op.get('chk'))
                 elif k == 'empty':
                     n = int(op['n'])
                     r = E.x(b'%d' % n)
@@ -972,6 +1069,19 @@ def run13(case):
                         run.violate('C13', 'renum-rejected-valid', '%s gave %r; lines %r' % (u(_renum_text(op)), r.errs, sorted(M.lines)[:40]))
                     note('renum', 'ok' if r.err is None else 'err')
                     check_list('after-renum')
+                elif k == 'clear':
+                    if not faults_on:
+                        continue
+                    t = b'CLEAR ,%d' % int(op['mem']) + (b',%d' % int(op['stack']) if op.get('stack') is not None else b'')
+                    r = E.x(t)
+                    # what CLEAR accepts is not judged here; whatever it answers, the program is as it was, and if
+                    # it was accepted the program fits in what is left
+                    pressure = True
+                    run.probe('clear_accepted' if r.err is None else 'clear_refused')
+                    note('clear', 'ok' if r.err is None else 'err')
+                    check_list('after-clear')
+                    check_fits('after-clear', True)
+                    mutated = False
                 elif k == 'new':
                     E.x(b'NEW')
                     M.lines = {}
@@ -981,7 +1091,11 @@ def run13(case):
                     do_save(op)
                     mutated = False
                 elif k in ('load', 'merge'):
+                    head = (_read(_fname(root, op['name'])[1]) or b'')[:1]
                     do_load(op, k == 'merge')
+                    if pressure:
+                        # text files are stored line by line, tokenised and protected ones in one piece
+                        check_fits('after-%s:%s-file' % (k, 'tokenised' if head in (b'\xff', b'\xfe') else 'text'), op.get('chk'))
                 elif k == 'auto':
                     do_auto(op)
                 elif k == 'list':
